@@ -749,7 +749,7 @@ func (d *NNSDriver) Step(x *Exec, n *Node, i int) StepResult {
 			got = append(got, nf)
 		}
 	}
-	if fmt.Sprint(got) != fmt.Sprint(expNotifs) {
+	if !SameNotifSet(got, expNotifs) {
 		return viol("notifications", fmt.Sprintf("got %v want %v", got, expNotifs))
 	}
 	if Same(expRet, "i0") && changed {
